@@ -849,3 +849,67 @@ fn main() {{}}
 U_PTRMUT = VUnit("c08_ptr_mut", ["C08", "C13"], "ptr_mut handler: field / element / entry assignment", build_ptr_mut)
 U_PTRMUT.assumes = ["HeapPrimitive::set is an abstract callee here (its effect on the heap: obligation C08.ptr.set)"]
 UNITS.append(U_PTRMUT)
+
+
+# =====================================================================================================================
+# C07: `call_self` -- a closure recursing with self(..) passes its captured variables on AND keeps them
+def build_call_self(repo):
+    src = Source(repo)
+    log = []
+    names = ["signal", "clear_stack", "get_local_operating_stack"]
+    ctx = ctx_impl(src, log, names)
+    # Ctx::get_callback_variables: receiver taken from the real signature (a `&mut self` version may change the context)
+    fg = src.fn(CTXF, "get_callback_variables", "impl < 'a > Ctx < 'a >")
+    mut_recv = "mut" in fg["sig"][:fg["sig"].index(")")] if ")" in fg["sig"] else False
+    bg = translate(fg["body"], [Rule("R1", "self . callback_state . as_ref ( ) . cloned ( )", "clone_caps_opt ( & self . callback_state )", why="Option<VariableMapping> clone (same cells)")], log, "Ctx::get_callback_variables")
+    check_closed(bg, "Ctx::get_callback_variables")
+    recv = "&mut self" if mut_recv else "&self"
+    keep = ("final(self).callback_state == old(self).callback_state, final(self).stack == old(self).stack, final(self).exit_state == old(self).exit_state, rest(final(self)) == rest(old(self)),"
+            if mut_recv else "")
+    me = "old(self)" if mut_recv else "self"
+    getter = f"""impl Ctx {{
+    //@ OBL CTX.get_callback_variables
+    // the captured variables of the running closure, for passing on: a copy of the mapping (same cells); the context KEEPS its own
+    pub fn get_callback_variables({recv}) -> (r: Option<Caps>)
+        ensures {keep} r is Some <==> {me}.callback_state is Some, r is Some ==> caps_view(&r->Some_0) == caps_view(&{me}.callback_state->Some_0)
+    {{
+{render(bg, 2)}
+    }}
+}}
+"""
+    b = handler(src, log, "call_self", [
+        Rule("R1", "ctx . get_local_operating_stack ( ) . clone ( )", "clone_stack ( ctx . get_local_operating_stack ( ) )", why="Vec<Primitive>::clone"),
+        Rule("R10", "let name = { let stack_view = stack . borrow ( ) ; stack_view . get_executing_function_label ( ) . context ( $m ) ? . to_owned ( ) } ;",
+             "let name = executing_function_label ( & stack ) ? ;", count=1, why="Rc<RefCell<Stack>> borrow + Stack::get_executing_function_label (obligation C01.stack.executing_function): abstract"),
+    ])
+    gen = header(log, f"{INSTR}: call_self; {CTXF}: Ctx::get_callback_variables, signal, clear_stack, get_local_operating_stack") + prelude("ctx.rs") + ctx + getter + f"""
+pub uninterp spec fn executing_label(s: &StackRef) -> Option<VString>;
+#[verifier::external_body] pub fn executing_function_label(s: &StackRef) -> (r: Result<VString, VErr>) ensures r is Ok <==> executing_label(s) is Some, r is Ok ==> r->Ok_0 == executing_label(s)->Some_0 {{ unimplemented!() }}
+
+//@ OBL C07.handler.call_self
+// `self(args)`: the running function is called again with the operand stack as arguments and -- for a closure -- with ITS captured variables;
+// the caller's own context (captured variables included) is as before, so it can go on using them after the call returns
+pub fn call_self(ctx: &mut Ctx, _args: &Vec<VString>) -> (r: Result<(), VErr>)
+    ensures
+        r is Ok ==> executing_label(&old(ctx).call_stack) is Some && final(ctx).stack@.len() == 0 && (final(ctx).exit_state matches Exit::JumpRequest(req) && {{
+            &&& req.destination == JumpRequestDestination::Standard(executing_label(&old(ctx).call_stack)->Some_0)
+            &&& req.arguments@ == old(ctx).stack@
+            &&& (req.callback_state is Some <==> old(ctx).callback_state is Some)
+            &&& (req.callback_state is Some ==> caps_view(&req.callback_state->Some_0) == caps_view(&old(ctx).callback_state->Some_0))
+            &&& req.stack == old(ctx).call_stack
+        }}),
+        rest(final(ctx)) == rest(old(ctx)),
+{{
+{render(b, 1)}
+}}
+}} // verus!
+fn main() {{}}
+"""
+    obls = ctx_obls(names, ["C07"]) + [Obl("CTX.get_callback_variables", ["C07"], fn="Ctx::get_callback_variables", desc="get_callback_variables: a copy of the captured-variable mapping; the context keeps its own"),
+                                       Obl("C07.handler.call_self", ["C07", "C01"], fn="call_self", desc="call_self: recursion through self(..) passes the closure's captured variables on and leaves the caller's context unchanged")]
+    return gen, obls, log
+
+
+U_CALLSELF = VUnit("c07_call_self", ["C07", "C01"], "call_self handler: recursion of a closure", build_call_self)
+U_CALLSELF.assumes = ["Stack::get_executing_function_label is an abstract callee here (obligation C01.stack.executing_function)", "gc cell semantics assumed"]
+UNITS.append(U_CALLSELF)
